@@ -3,11 +3,11 @@ package mon
 import (
 	"bytes"
 	"context"
-	"unsafe"
 	"encoding/binary"
 	"fmt"
 	"io"
 	"math/rand"
+	"unsafe"
 
 	"github.com/cloudwego/gopkg/bufiox"
 	"github.com/cloudwego/gopkg/protocol/ttheader"
